@@ -955,6 +955,9 @@ def flow_sources(body, term, barrier_re, limit=4000):
     return terminals, barriers
 
 
+ITER_ADAPTOR = re.compile(r"(::iter$|::iter_mut$|::enumerate$|::into_iter$|::rev$|::peekable$|::by_ref$|::drain$|::values$|::keys$)")
+
+
 def elem_collection(body, var_term):
     """for a loop variable: the term of the collection it iterates, else None"""
     if var_term[0] != "var" or len(var_term) < 3:
@@ -972,12 +975,13 @@ def elem_collection(body, var_term):
                     t2 = body.def_term(bi2, si2, rv2, 0)
                     if t2[0] == "call" and t2[2]:
                         c = t2[2][0]
-                        while c[0] in ("ref", "deref"):
-                            c = c[1]
-                        if c[0] == "call" and TRANSPARENT.search(c[1]) and c[2]:
-                            c = c[2][0]
+                        for _ in range(8):
                             while c[0] in ("ref", "deref"):
                                 c = c[1]
+                            if c[0] == "call" and c[2] and (TRANSPARENT.search(c[1]) or ITER_ADAPTOR.search(c[1])):
+                                c = c[2][0]
+                            else:
+                                break
                         return c
     return None
 
@@ -996,6 +1000,9 @@ def full_path(body, t, depth=0):
         elif k in ("deref", "ref", "cast", "downcast", "await"):
             t = t[1]
         elif k == "call" and t[2] and TRANSPARENT.search(t[1]):
+            t = t[2][0]
+        elif k == "call" and t[2] and re.search(r"(Vec|slice|VecDeque|HashMap|HashSet|BTreeMap).*::(get|get_mut|first|last)$", t[1]):
+            parts.append("[]")
             t = t[2][0]
         elif k == "var":
             c = elem_collection(body, t)
